@@ -2,9 +2,15 @@
 valid and by drivers/dyn.py to build the FRESH model of the differential oracle)."""
 
 
-def apply_edit(defs, op):
-    """the same edit on the mirror of the definitions (list of nodes)"""
+def apply_edit(defs, op, globs=None):
+    """the same edit on the mirror of the definitions (list of nodes; globs: references of the model)"""
     k = op["op"]
+    if k == "setglobal":
+        globs[op["x"]] = op["v"]
+        return
+    if k == "delglobal":
+        globs.pop(op["x"], None)
+        return
 
     def node(p):
         for nd in defs:
